@@ -264,7 +264,7 @@ struct Cap { int quick, thorough; };
 static size_t cap_of(Kind k, int cls, bool quick, double scale) {
 	// variants per (entry, seed, class) before scaling; catalogues smaller than the cap are applied completely
 	static const Cap text[T_NCLASS] = { {1, 1}, {6, 60}, {4, 40}, {3, 30}, {10, 200}, {6, 80}, {8, 200}, {12, 300}, {10, 400}, {8, 400}, {5, 100}, {6, 100}, {3, 40} };
-	static const Cap pgp[P_NCLASS] = { {1, 1}, {5, 60}, {6, 120}, {3, 40}, {5, 128}, {3, 40}, {6, 200}, {6, 200}, {8, 300}, {2, 20}, {2, 20}, {2, 20}, {6, 300}, {8, 400}, {3, 60}, {2, 8} };
+	static const Cap pgp[P_NCLASS] = { {1, 1}, {5, 60}, {6, 120}, {3, 40}, {5, 128}, {3, 40}, {6, 200}, {6, 200}, {8, 300}, {2, 20}, {2, 20}, {2, 20}, {6, 300}, {8, 400}, {3, 60}, {2, 8}, {400, 4000} };
 	Cap c = (k == K_PGP) ? pgp[cls] : (k == K_ARMOR ? Cap{2, 40} : text[cls]);
 	if (cls == 0 && k != K_ARMOR) return 1;
 	double v = (quick ? c.quick : c.thorough) * scale; return v < 1 ? 1 : (size_t)v;
@@ -341,6 +341,8 @@ int main(int argc, char **argv) {
 				size_t cap = cap_of(e.kind, cls, quick, scale);
 				// stream operators with 640 MiB line buffers are slow under ASan: fewer variants
 				if (e.name.compare(0, 10, "op>>/stack") == 0 && cls != 0) cap = std::max<size_t>(1, cap / 4);
+				// the full field-boundary sweep of packet bodies runs through the packet decoder; the block parsers get a sample
+				if (e.kind == K_PGP && cls == P_BODYCUT && e.name != "pgp/PacketDecode") cap = std::max<size_t>(1, cap / 40);
 				size_t nv = std::min(cat, cap);
 				for (size_t j = 0; j < nv; j++) {
 					long kc = k++; if (pass == 0) { total++; continue; }
